@@ -182,7 +182,7 @@ def check_one(recipe, sname, dname, method, budget, info) -> Tuple[List[dict], D
         x, bad = recipe["start"], bad_start
         api, obs_t, exp_t = "sum_product", z, ref[x]
     idx, o, ex, kind = bad[0]
-    if kind == "wrong-value" and budget == "tight":
+    if kind == "wrong-value" and budget == "tight" and o < ex:     # stopped below the least fixed point
         kind = "unconverged-no-warning"
     clause = "sum_product.recursive.value_or_warning" if budget == "tight" else "sum_product.recursive.least_fixed_point"
     special = _special_blame(recipe, x, info["refs"]["Real"]) if ("inf" in kind or kind == "nan") else ""
